@@ -44,6 +44,55 @@ fn alphabet() -> Vec<ROp> {
     ]
 }
 
+/// A second, wider alphabet: one representative of (almost) every opcode, for exhaustive short programs.
+fn alphabet_wide() -> Vec<ROp> {
+    vec![
+        ROp::PushIC(be(0)),
+        ROp::PushIC(be(1)),
+        ROp::PushIC(be(2)),
+        ROp::PushIC([0xff; 32]),
+        ROp::PushB(vec![]),
+        ROp::PushB(vec![0x61, 0x62]),
+        ROp::PushB(vec![7; 32]),
+        ROp::Noop,
+        ROp::Mul,
+        ROp::Div,
+        ROp::Rem,
+        ROp::Exp(1),
+        ROp::And,
+        ROp::Or,
+        ROp::Xor,
+        ROp::Not,
+        ROp::Lt,
+        ROp::Gt,
+        ROp::Shl,
+        ROp::Shr,
+        ROp::Hash(32),
+        ROp::Store,
+        ROp::Load,
+        ROp::VAppend,
+        ROp::VLength,
+        ROp::VSlice,
+        ROp::VSet,
+        ROp::VCons,
+        ROp::VEmpty,
+        ROp::VPush,
+        ROp::BRef,
+        ROp::BAppend,
+        ROp::BLength,
+        ROp::BSlice,
+        ROp::BSet,
+        ROp::BCons,
+        ROp::BPush,
+        ROp::ItoB,
+        ROp::BtoI,
+        ROp::TypeQ,
+        ROp::Dup,
+        ROp::Bnz(1),
+        ROp::Loop(3, 1),
+    ]
+}
+
 fn show_val(v: &Option<RVal>) -> String {
     match v {
         None => "None".into(),
@@ -280,6 +329,26 @@ pub fn run(ctx: &Ctx) -> (Outcome, String, Option<bool>) {
     });
     out.absorb(o);
 
+    // (a') exhaustive over the wide alphabet (one representative of nearly every opcode), shorter programs
+    let wide = alphabet_wide();
+    let wlen = if ctx.thorough() { 5 } else { 4 };
+    let mut prefixes: Vec<Vec<u32>> = vec![];
+    for i in 0..wide.len() as u32 {
+        for j in 0..wide.len() as u32 {
+            prefixes.push(vec![1000 + i, 1000 + j]);
+        }
+    }
+    let o = run_enumeration(ctx, "exhaustive-wide-alphabet", prefixes, |pre, st, _| {
+        let a = alphabet_wide();
+        let mut cur: Vec<ROp> = pre.iter().map(|i| a[(*i - 1000) as usize].clone()).collect();
+        check_program(&cur, &[], st)?;
+        for len in 3..=wlen {
+            enumerate_rec(&a, &mut cur, len, st)?;
+        }
+        Ok(())
+    });
+    out.absorb(o);
+
     // (b) type-aware random programs on random heaps
     let o = run_sharded(
         ctx,
@@ -346,7 +415,7 @@ pub fn run(ctx: &Ctx) -> (Outcome, String, Option<bool>) {
     );
     out.absorb(o);
 
-    let rule = format!("Enumerated: every program of length 1-{} over a 19-symbol alphabet (push 0/1/2/2^255, add, sub, dup, eql, bez 1, jmp 1, loop 2 1, loop 2 2, vempty, vpush, vref, bempty, bpush, storeimm 0, loadimm 0). Generated: type-aware random programs (abstract stack of int/bytes/vector; boundary operands; nested loops; jumps) of up to ~150 instructions on random initial heaps, the same through Covenant::execute with a generated transaction+environment, and decodable byte strings. Programs with reference weight > {} are excluded (counted). Oracle: RefVM (independent interpreter over Vec/BigUint) must give the same None/Some and the same value; the implementation run twice must agree. Non-trivial = executes >=3 instructions of >=2 kinds, not all pushes; distinct by bytecode+steps.", maxlen, WEIGHT_CAP);
+    let rule = format!("Enumerated: every program of length 1-{0} over a 19-symbol alphabet (push 0/1/2/2^255, add, sub, dup, eql, bez 1, jmp 1, loop 2 1, loop 2 2, vempty, vpush, vref, bempty, bpush, storeimm 0, loadimm 0). Also enumerated: every program of length 2-{1} over a 43-symbol alphabet with one representative of nearly every opcode (mul, div, rem, exp, bit ops, comparisons, shifts, hash, store/load, all vector and byte-string operations, conversions, typeq, bnz, loop 3 1). Generated: type-aware random programs (abstract stack of int/bytes/vector; boundary operands; nested loops; jumps) of up to ~150 instructions on random initial heaps, the same through Covenant::execute with a generated transaction+environment, and decodable byte strings. Programs with reference weight > {2} are excluded (counted). Oracle: RefVM (independent interpreter over Vec/BigUint) must give the same None/Some and the same value; the implementation run twice must agree. Non-trivial = executes >=3 instructions of >=2 kinds, not all pushes; distinct by bytecode+steps.", maxlen, wlen, WEIGHT_CAP);
     (out, rule, Some(true))
 }
 
@@ -368,6 +437,15 @@ pub fn replay(case: &serde_json::Value) -> Check {
         return check_env(&ops, &tx, &env, &mut st);
     }
     if let Ok(pre) = serde_json::from_value::<Vec<u32>>(case.clone()) {
+        if pre.iter().all(|x| *x >= 1000) {
+            let a = alphabet_wide();
+            let mut cur: Vec<ROp> = pre.iter().map(|i| a[(*i - 1000) as usize].clone()).collect();
+            check_program(&cur, &[], &mut st)?;
+            for len in 3..=4 {
+                enumerate_rec(&a, &mut cur, len, &mut st)?;
+            }
+            return Ok(());
+        }
         let a = alphabet();
         let mut cur: Vec<ROp> = pre.iter().map(|i| a[*i as usize].clone()).collect();
         check_program(&cur, &[], &mut st)?;
